@@ -14,6 +14,7 @@ from ..base_manager import BaseManager
 from .cache import TransferNullCache, TransferCache
 from ..constants import (
     MAX_TRANSFER_MGMT_INTERVAL,
+    MAX_TRANSFER_MGMT_IDLE_INTERVAL,
     MIN_TRANSFER_MGMT_INTERVAL,
     TRANSFER_REPLY_TIMEOUT,
 )
@@ -516,7 +517,14 @@ class TransferManager(BaseManager):
             await self._user_manager.untrack_user(username, TrackingFlag.TRANSFER)
 
     async def _management_job(self) -> float:
-        await self._management_queue.get()
+        # Wait for a request to manage the transfers. Do not wait for ever:
+        # changes that do not cause a request (raising the amount of upload
+        # slots in the settings) would otherwise never be noticed
+        try:
+            async with atimeout(MAX_TRANSFER_MGMT_IDLE_INTERVAL):
+                await self._management_queue.get()
+        except asyncio.TimeoutError:
+            pass
 
         start = time.monotonic()
 
